@@ -181,7 +181,9 @@ func (b *atxHeadingParser) Close(node ast.Node, reader text.Reader, pc Context) 
 		if !ok {
 			generateAutoHeadingID(node.(*ast.Heading), reader, pc)
 		} else {
-			pc.IDs().Put(id.([]byte))
+			if v, ok := id.([]byte); ok {
+				pc.IDs().Put(v)
+			}
 		}
 	}
 }
